@@ -297,6 +297,8 @@ class C26(Check):
         e = dict(env or {})
         e.setdefault("WILD_VALIDATE_OUTPUT", "0")
         r = tools.run([*pre, tools.linker_path("wild"), *a], cwd=d, env=e, timeout=120)
+        if r.timed_out:     # overloaded machine: one retry with a long timeout before giving up
+            r = tools.run([*pre, tools.linker_path("wild"), *a], cwd=d, env=e, timeout=600)
         if r.timed_out:
             raise Inconclusive("wild timed out")
         if r.rc < 0 or "panicked at" in r.err or r.rc == 97:
